@@ -507,3 +507,34 @@ pub fn gen_haystack(t: &mut Tape, hirs: &[Hir], term: Term, max_lines: usize) ->
 pub fn bs(v: Vec<u8>) -> Bs {
     Bs(v)
 }
+
+/// Does the input begin with a byte-order mark the searcher would sniff
+/// (UTF-8, UTF-16LE, UTF-16BE)? Such inputs are transcoded first, which is
+/// C17's subject; checks about plain searching exclude them.
+pub fn starts_with_bom(input: &[u8]) -> bool {
+    input.starts_with(b"\xEF\xBB\xBF") || input.starts_with(b"\xFF\xFE") || input.starts_with(b"\xFE\xFF")
+}
+
+/// Does the pattern text switch on CRLF mode with an inline flag (`(?R)`,
+/// `(?iR:`...)?
+pub fn has_inline_crlf_flag(pattern: &str) -> bool {
+    let b = pattern.as_bytes();
+    let mut i = 0;
+    while i + 1 < b.len() {
+        if b[i] == b'(' && b[i + 1] == b'?' {
+            let mut j = i + 2;
+            let mut neg = false;
+            while j < b.len() && (b[j].is_ascii_alphabetic() || b[j] == b'-') {
+                if b[j] == b'-' {
+                    neg = true;
+                }
+                if b[j] == b'R' && !neg {
+                    return true;
+                }
+                j += 1;
+            }
+        }
+        i += 1;
+    }
+    false
+}
